@@ -103,8 +103,46 @@ pub fn decode_random(src: &mut Source) -> Box<dyn Case> {
     };
     let mut ops: Vec<Op> = Vec::new();
     let mut titles: Vec<String> = Vec::new();
+    // what the user is in the middle of typing: (target text, characters typed so far)
+    let mut typing: Option<(Vec<char>, usize)> = None;
     while ops.len() < 40 && (ops.len() < 2 || src.chance(9, 10)) {
-        match src.weighted(&[8, 8, 2, 3, 2]) {
+        match src.weighted(&[8, 8, 2, 3, 2, 6]) {
+            5 => {
+                // search-as-you-type: every keystroke is a search; the target is a vocabulary word
+                // (or two), possibly with an early typo, typed one more character each time
+                let cont = match &typing {
+                    Some((t, k)) => *k < t.len(),
+                    None => false,
+                };
+                if !cont {
+                    let mut t: Vec<char> = src.pick(&vocab).chars().collect();
+                    if src.chance(1, 2) && t.len() >= 2 {
+                        // an early typo: swap / drop / replace among the first three letters
+                        let i = src.below(t.len().min(3));
+                        match src.below(3) {
+                            0 => {
+                                if i + 1 < t.len() {
+                                    t.swap(i, i + 1)
+                                }
+                            }
+                            1 => {
+                                t.remove(i);
+                            }
+                            _ => t[i] = *src.pick(&plain_letters(lang)),
+                        }
+                    }
+                    if src.chance(1, 4) {
+                        t.push(' ');
+                        t.extend(src.pick(&vocab).chars());
+                    }
+                    typing = Some((t, 0));
+                }
+                if let Some((t, k)) = typing.as_mut() {
+                    *k += 1;
+                    let q: String = t[..*k].iter().collect();
+                    ops.push(Op::Search(q));
+                }
+            }
             0 => {
                 let t = if src.chance(4, 5) {
                     let nw = src.range(1, 3);
